@@ -79,6 +79,12 @@ def phylib_rev():
         return 'unknown'
 
 
+def too_many_timeouts(n=3):
+    """True once this (worker) process has seen n calls that did not return: the remaining cases
+    are then skipped (the run is reported as a violation and as not exhaustive anyway)."""
+    return time_limit.count >= n
+
+
 # ---------------------------------------------------------------------------
 # scratch directories
 # ---------------------------------------------------------------------------
@@ -261,6 +267,9 @@ def _run_chunk(args):
     fn, chunk = args
     acc = Acc()
     for order, case in chunk:
+        if too_many_timeouts():
+            acc.extra['cases_skipped_after_timeouts'] += 1
+            continue
         try:
             fn(case, acc, order)
         except PhylibImportError:
@@ -348,6 +357,43 @@ def replay_case(run_case, record, restrict=('only_op', 'only_prog', 'only_hist',
 
 class ChoiceDivergence(Exception):
     pass
+
+
+class CaseTimeout(BaseException):
+    """The code under test did not return within the horizon given to one call. (BaseException so
+    that a blanket `except Exception` in the code under test cannot swallow it.)"""
+
+
+class time_limit(object):
+    """Horizon for one call into the code under test (loops that a broken change can make
+    endless: retry loops, chunk iterators, the correlogram shift loop). SIGALRM based, so only
+    usable in the main thread of a (worker) process; a no-op elsewhere."""
+
+    def __init__(self, seconds):
+        self.seconds = seconds
+        self.active = False
+
+    count = 0       # timeouts seen in this process
+
+    def _handler(self, signum, frame):
+        time_limit.count += 1
+        raise CaseTimeout('no result within %ss' % self.seconds)
+
+    def __enter__(self):
+        import signal
+        import threading
+        if threading.current_thread() is threading.main_thread():
+            self.old = signal.signal(signal.SIGALRM, self._handler)
+            signal.setitimer(signal.ITIMER_REAL, self.seconds)
+            self.active = True
+        return self
+
+    def __exit__(self, *a):
+        if self.active:
+            import signal
+            signal.setitimer(signal.ITIMER_REAL, 0)
+            signal.signal(signal.SIGALRM, self.old)
+        return False
 
 
 class Choices(object):
